@@ -34,6 +34,74 @@ func runC11(p *core.Prog, r *core.Report) {
 	c11R7(p, r)
 	c11R8(p, r)
 	c11R9(p, r)
+	c11R10(p, r)
+}
+
+// c11R10: a host entry that is created on demand starts from the configured defaults. Starting it from
+// another registry's entry copies that registry's credential settings (credential helper host, user,
+// token) into an entry that speaks to a different host.
+func c11R10(p *core.Prog, r *core.Report) {
+	const rule = "C11.R10"
+	r.Rule(rule, "a new host entry inherits from the defaults only: the template given to config.HostNewDefName outside package config is nil or a dedicated defaults value, never an element looked up in a table of hosts", 1)
+	n := 0
+	var fromLookup func(v ssa.Value, d int) bool
+	fromLookup = func(v ssa.Value, d int) bool {
+		if v == nil || d > 8 {
+			return false
+		}
+		switch x := v.(type) {
+		case *ssa.Lookup:
+			return true
+		case *ssa.Extract:
+			return fromLookup(x.Tuple, d+1)
+		case *ssa.Phi:
+			for _, e := range x.Edges {
+				if fromLookup(e, d+1) {
+					return true
+				}
+			}
+		case *ssa.UnOp:
+			if al, ok := x.X.(*ssa.Alloc); ok {
+				for _, st := range core.StoresToCell(al) {
+					if fromLookup(st.Val, d+1) {
+						return true
+					}
+				}
+				return false
+			}
+			return fromLookup(x.X, d+1)
+		case *ssa.Call:
+			// a helper of the same package that hands back a table entry
+			if g := core.CalleeFn(x); g != nil && len(g.Blocks) > 0 && core.FuncPkg(g) == core.FuncPkg(x.Parent()) {
+				for _, ret := range core.Returns(g) {
+					for i := range ret.Results {
+						if core.IsModNamed(ret.Results[i].Type(), "config", "Host") && fromLookup(core.ReturnOperand(ret, i), d+2) {
+							return true
+						}
+					}
+				}
+			}
+		case *ssa.ChangeType:
+			return fromLookup(x.X, d+1)
+		}
+		return false
+	}
+	for _, fn := range p.ModFuncs {
+		if len(fn.Blocks) == 0 {
+			continue
+		}
+		if pk := core.FuncPkg(fn); pk == nil || pk.Path() == modPath("config") {
+			continue
+		}
+		lab := labeler{}
+		for _, c := range core.CallsTo(fn, func(f *types.Func) bool { return core.IsModFunc(f, "config", "HostNewDefName") }) {
+			n++
+			r.Check(!fromLookup(core.CallArg(c, 0), 0), rule, p.FuncName(fn), lab.next("template of a new host entry"), p.Pos(c.Pos()), "the new entry is built from an entry found in a table of hosts: that registry's credential settings (credential helper host, user, token) travel to a host they were not configured for")
+		}
+	}
+	if n == 0 {
+		r.Held(rule, "module", "no entry built from a template", "-", "config.HostNewDefName is not called outside package config")
+	}
 }
 
 // c11R9: whether a registry is spoken to without TLS is the user's decision. Outside the package that
